@@ -53,7 +53,20 @@ def main(argv):
     ctx = Ctx(pid, tier, seed, getattr(drv, "LEVEL", "model_checking"), replay)
     try:
         drv.run(ctx)
-        return ctx.finish()
+        rc = ctx.finish()
+        if replay:
+            # --replay PATH: the check is deterministic for a given seed/tier, so the stored case is re-executed as part of the
+            # same run; report whether the recorded violation (same key) occurs again on the current tree
+            try:
+                rec = json.load(open(replay))
+                keys = [k for k, _, _ in ctx.violations] + [k for k, _ in ctx.known_hit]
+                again = rec.get("key") in keys
+                print(f"REPLAY {'REPRODUCED' if again else 'NOT-REPRODUCED'} key={rec.get('key')} detail={str(rec.get('detail'))[:200]}")
+                return 1 if again else 0
+            except Exception as ex:
+                print(f"cannot read replay file {replay}: {ex}")
+                return 2
+        return rc
     except MachineryError as e:
         print(f"MACHINERY-ERROR property={pid}: {e}")
         return 2
